@@ -354,6 +354,7 @@ var lsBuilder *protocol.BatchDataCodingEncoder
 func runLongSMS(r *core.Run) {
 	c := r.C
 	lsBuilder = nil
+	defer installSortedOrder()()
 	// the caller's context is the deployment's business (see batch.go): live, cancelled, deadline passed, with values
 	ctx := context.Background()
 	switch r.Cfg.Index % 16 {
